@@ -30,7 +30,38 @@ def ty_str(t: Any) -> str:
         return "f32"
     if isinstance(t, builtin.Float64Type):
         return "f64"
+    if isinstance(t, builtin.MemRefType):
+        # static shapes only (C16): `memref:<d0>x<d1>…:<elt>`
+        dims = [d.data for d in t.shape.data]
+        if any(d < 0 for d in dims):
+            raise Unsupported(f"dynamic memref {t}")
+        return "memref:" + "x".join(str(d) for d in dims) + ":" + ty_str(t.element_type)
     raise Unsupported(f"type {t}")
+
+
+def affine_code(e: Any) -> list[int]:
+    """prefix code of an affine expression (see `evalAffCode` in lean/XdslModel/Sem.lean)"""
+    from xdsl.ir.affine import (AffineBinaryOpExpr, AffineBinaryOpKind, AffineConstantExpr, AffineDimExpr,
+                                AffineSymExpr)
+
+    if isinstance(e, AffineConstantExpr):
+        return [0, e.value]
+    if isinstance(e, AffineDimExpr):
+        return [1, e.position]
+    if isinstance(e, AffineSymExpr):
+        return [2, e.position]
+    if isinstance(e, AffineBinaryOpExpr):
+        k = {AffineBinaryOpKind.Add: 3, AffineBinaryOpKind.Mul: 4, AffineBinaryOpKind.Mod: 5,
+             AffineBinaryOpKind.FloorDiv: 6, AffineBinaryOpKind.CeilDiv: 7}[e.kind]
+        return [k, *affine_code(e.lhs), *affine_code(e.rhs)]
+    raise Unsupported(f"affine expression {e}")
+
+
+def affine_map_code(m: Any) -> list[int]:
+    out = [m.num_dims, m.num_symbols, len(m.results)]
+    for r in m.results:
+        out += affine_code(r)
+    return out
 
 
 def f64_bits(x: float) -> int:
@@ -79,6 +110,8 @@ class Serializer:
             return f'({q} str "{a.string_value()}")'
         if isinstance(a, builtin.UnitAttr):
             return f"({q} unit)"
+        if isinstance(a, builtin.AffineMapAttr):
+            return f"({q} ints " + " ".join(str(x) for x in affine_map_code(a.data)) + ")"
         if isinstance(a, builtin.DenseArrayBase):
             try:
                 vals = a.get_values()
